@@ -16,8 +16,8 @@ func init() {
 	core.Register(&core.Check{
 		ID: "C04", Level: "other", Title: "Contract parameters and stored records round-trip canonically",
 		Technique: "codec schema agreement over every Serialization/Deserialization pair (ordered wire-kind lists extracted from SSA, with wrap/ string≡varbytes normalisation), map-emission order classification with comparator audit, wire-bounded allocation rule, raw-storage-item pairing",
-		Explain: "Decided statically for every named type under native/, core/states and common/config that has both directions of a codec (enumerated from the method sets on every run; the count is asserted). (Schema) the writer and the reader perform the same ordered list of wire operations — kinds u8…u64, bool, varuint, varbytes(=string), hash, address, bytes, nested T:<type>, and wrap(varbytes|raw, T) for an object carried inside a length-prefixed or trailing byte string — and, where both sides resolve the struct field, the same field at each position; a reader that forgets a field, reads another width, or reads two fields in the other order is reported with both lists. (Canonical maps) in every encoder of the scope a range over a Go map must not leak iteration order: the keys are collected, sorted, and emitted from the sorted slice; every sort.Slice/SliceStable comparator must be a strict order on elements of the very slice being sorted (a comparator that indexes another slice leaves the order to the map). (Malformed input) no decoder of the scope sizes an allocation by a varuint/u32/u64 just read from the wire unless an upper bound on that value dominates the allocation. (Storage wrapper) GenRawStorageItem(v) is StorageItem{Value: v}.ToArray() and GetValueFromRawStorageItem returns item.Value after item.Deserialize err==nil; StorageItem's own pair is part of the schema rule. NOT decided: value equality after a round trip as such (e.g. numeric conversions inside one field), panics from index arithmetic on decoded slices.",
-		Run: runC04,
+		Explain:   "Decided statically for every named type under native/, core/states and common/config that has both directions of a codec (enumerated from the method sets on every run; the count is asserted). (Schema) the writer and the reader perform the same ordered list of wire operations — kinds u8…u64, bool, varuint, varbytes(=string), hash, address, bytes, nested T:<type>, and wrap(varbytes|raw, T) for an object carried inside a length-prefixed or trailing byte string — and, where both sides resolve the struct field, the same field at each position; a reader that forgets a field, reads another width, or reads two fields in the other order is reported with both lists. (Canonical maps) in every encoder of the scope a range over a Go map must not leak iteration order: the keys are collected, sorted, and emitted from the sorted slice; every sort.Slice/SliceStable comparator must be a strict order on elements of the very slice being sorted (a comparator that indexes another slice leaves the order to the map). (Malformed input) no decoder of the scope sizes an allocation by a varuint/u32/u64 just read from the wire unless an upper bound on that value dominates the allocation. (Storage wrapper) GenRawStorageItem(v) is StorageItem{Value: v}.ToArray() and GetValueFromRawStorageItem returns item.Value after item.Deserialize err==nil; StorageItem's own pair is part of the schema rule. NOT decided: value equality after a round trip as such (e.g. numeric conversions inside one field), panics from index arithmetic on decoded slices.",
+		Run:       runC04,
 	})
 }
 
